@@ -69,7 +69,7 @@ def run(rep, index):
                 rep.ob("C08.R1 schedule-independent-of-contents", "%s.%s loop-carried %s" % (MOD, fname, var), ok,
                        why or "no definition of %s reads %s[...] or is control-dependent on it" % (var, bufp),
                        loc=index.loc(m, lp))
-    rep.floor("carried variables", 1)
+    # (no floor: a loop without carried state has nothing that could depend on the contents)
 
     # ---- R2-R4: the transfer function of one inversion pass
     paths = run_on_buffer(index, ["_invert_characters"])
